@@ -219,15 +219,21 @@ func judge(p Prog, seed int64) (clause string, exp expectation, got observation)
 
 var rtKinds = []string{"rt0", "rtm", "rth", "rtp"} // simplest first
 
-var typeRank = map[string]int{"Throwable": 0, "Exception": 1, "E1": 2, "E0": 3, "E2": 4, "I": 5}
-var clsRank = map[string]int{"E1": 0, "E0": 1, "E2": 2}
-var ctxRank = map[string]int{"top": 0, "func": 1, "for": 2, "foreach": 3, "while": 4, "funcloop": 5}
+var typeRank = map[string]int{"Throwable": 0, "Exception": 1, "E1": 2, "E0": 3, "E2": 4, "I": 5, "J3": 6, "J2": 7, "J1": 8}
+var clsRank = map[string]int{"E1": 0, "E0": 1, "E2": 2, "E3": 3}
+var ctxRank = map[string]int{"top": 0, "func": 1, "for": 2, "foreach": 3, "while": 4, "funcloop": 5, "calls": 6}
 
 // candidates lists strictly simpler programs, most drastic first. Every candidate lowers
 // (size, rank sum), so reduction terminates.
 func candidates(p Prog) []Prog {
 	var out []Prog
+	chain := usesClass(p.Root, "E3")
 	add := func(q Prog) {
+		if chain && !ctxRepeats(q.Ctx) && usesClass(q.Root, "E3") {
+			// the interface-chain programs are about repeated handling in ONE run: a single-shot
+			// context would make the verdict depend on what ran before in the same process
+			return
+		}
 		if q.Root.K == "try" && q.valid() && !excluded(q) {
 			out = append(out, q)
 		}
@@ -310,7 +316,7 @@ func candidates(p Prog) []Prog {
 			}
 			// simpler catch type
 			for i, c := range t.Catches {
-				for _, ty := range []string{"Throwable", "Exception", "E1", "E0", "E2"} {
+				for _, ty := range []string{"Throwable", "Exception", "E1", "E0", "E2", "I", "J3", "J2"} {
 					if typeRank[ty] < typeRank[c.Type] {
 						dup := false
 						for j, o := range t.Catches {
@@ -395,7 +401,7 @@ func candidates(p Prog) []Prog {
 				add(q)
 			}
 		case "throw":
-			for _, cl := range []string{"E1", "E0"} {
+			for _, cl := range []string{"E1", "E0", "E2"} {
 				if clsRank[cl] < clsRank[a.Cls] {
 					q := p.clone()
 					at(&q, path).Cls = cl
@@ -405,6 +411,25 @@ func candidates(p Prog) []Prog {
 		}
 	}
 	return out
+}
+
+// usesClass reports whether some throw / call action uses the class.
+func usesClass(a Act, cls string) bool {
+	if (a.K == "throw" || a.K == "call") && a.Cls == cls {
+		return true
+	}
+	if a.K != "try" {
+		return false
+	}
+	if usesClass(a.Try.Body, cls) {
+		return true
+	}
+	for _, c := range a.Try.Catches {
+		if usesClass(c.Body, cls) {
+			return true
+		}
+	}
+	return a.Try.Fin != nil && usesClass(*a.Try.Fin, cls)
 }
 
 var reduceMemo = map[string]Prog{}
@@ -732,7 +757,7 @@ func main() {
 				continue
 			}
 			m := mod
-			if (fam == "d2fin" || fam == "d1x") && quick {
+			if fam == "d1i" || ((fam == "d2fin" || fam == "d1x") && quick) {
 				m = 2
 			}
 			for r := 0; r < m; r++ {
@@ -791,6 +816,7 @@ func main() {
 	c.Set("g2_cells", g2.Cells)
 	c.Set("g2_cli", g2.Bin)
 	c.Set("instanceof_mask", mask)
+	c.Assume("repeated identical throws in one run (family d1i): 2 loop iterations or 3 calls of one function, interface chain of 3 extends-levels")
 	c.Assume("G1 is exhaustive only inside the listed alphabets: nesting depth <= 2 (thorough: + depth-3 chains), <= 2 catch clauses per try at depth 1 and <= 1 at depth 2, two loop iterations, one interesting statement per block")
 	c.Assume("runtime errors are Throwables of unspecified class: catch (Exception) may or may not catch them (either answer accepted), their class/message/identity are not compared")
 	c.Assume("break/continue inside finally and `return` at top level are outside the generated language (PHP rejects the former)")
@@ -806,7 +832,7 @@ func main() {
 		}
 	}
 	c.Finish(total+int64(g2.Cells+g1c), execs+int64(g2.Cells+g1c), total+int64(g2.Cells+g1c),
-		fmt.Sprintf("G1: complete cross product of try/catch/finally structures (families %v) x 6 contexts vs reference interpreter; G1c: 6-cell object-ness table of the catch variable; G2: %d real CLI subprocess cells; distinct = programs + cells; outcomes = distinct (exit path x finally, dispatch) situations covered", families, g2.Cells))
+		fmt.Sprintf("G1: complete cross product of try/catch/finally structures (families %v) x 6 contexts (+ 3-calls context for the interface-chain family d1i) vs reference interpreter; G1c: 6-cell object-ness table of the catch variable; G2: %d real CLI subprocess cells; distinct = programs + cells; outcomes = distinct (exit path x finally, dispatch) situations covered", families, g2.Cells))
 }
 
 func replay(c *ev.Check) {
